@@ -341,6 +341,10 @@ def run(ctx) -> None:
     ctx.check(ok, "C09.R6", "serial Package.deserialize", sp.module.path, ds.lineno, "every module and extension is decoded, in order", ds)
     f = sp.find_field("extensions")
     ctx.check(f is not None and f.default_factory is not None, "C09.R6", "serial Package.extensions default", sp.module.path, f.node.lineno if f else 1, "", f.node if f else None)
+    ctx.rule("C09.R7", "the extensions a package carries survive the codec used inside every envelope format (shared with C10.R1)", floor=30)
+    from .c10 import r1_codec
+    with ctx.as_rule(C10_R1="C09.R7"):
+        r1_codec(ctx, nf)
     from .. import lints
     lints.arm(ctx)
 
